@@ -531,6 +531,9 @@ def _run_history(case, ctx):
             states.add(tuple(sorted(iso.units.items(), key=lambda kv: kv[0])))
             if not alive:
                 break
+            # interpolated reads in the current representation must follow the conversion (caches invisible):
+            # this also fills the interpolator caches before the next conversion call
+            _check_interpolation(ctx, iso, call_rec)
         if not alive:
             break
     ctx.extra["distinct_label_states"] = ctx.extra.get("distinct_label_states", 0) + len(states)
@@ -546,6 +549,26 @@ def _run_history(case, ctx):
         ctx.count("histories", "did-not-return-to-start")
     if r.random() < 0.02:
         ctx.sample({"start_units": spec["units"], "calls": calls})
+
+
+def _check_interpolation(ctx, iso, call):
+    d = iso.data_raw
+    ads = d.loc[d["branch"] == 0]
+    if len(ads) < 2:
+        return
+    k = len(ads) // 2
+    pk = float(ads[iso.pressure_key].iloc[k])
+    lk = float(ads[iso.loading_key].iloc[k])
+    ctx.hook("interpolation_after_conversion")
+    try:
+        got_l = float(iso.loading_at(pk))
+        got_p = float(iso.pressure_at(lk))
+    except Exception as exc:
+        ctx.violation("history/interpolation-raises-after/%s" % call["fn"], "interpolating at a measured point raised after a conversion history", call=call, exc=exc, units=dict(iso.units))
+        return
+    if not close(got_l, lk, 1e-9) or not close(got_p, pk, 1e-9):
+        ctx.violation("history/interpolation-stale-after/%s" % call["fn"], "interpolated value at a measured point does not coincide with the stored data after a conversion (stale cache)", call=call, got=[got_l, got_p],
+                      expected=[lk, pk], units=dict(iso.units))
 
 
 def _shadow_convert(iso, kw):
